@@ -13,3 +13,20 @@ def showList {α} [ToString α] (xs : List α) : String := joinWith "," (xs.map 
 def bits (bs : List Bool) : String := String.ofList (bs.map fun b => if b then '1' else '0')
 
 end Driver
+
+namespace Driver
+def hexDigit? (c : Char) : Option Nat :=
+  if '0' ≤ c ∧ c ≤ '9' then some (c.toNat - '0'.toNat)
+  else if 'a' ≤ c ∧ c ≤ 'f' then some (c.toNat - 'a'.toNat + 10)
+  else if 'A' ≤ c ∧ c ≤ 'F' then some (c.toNat - 'A'.toNat + 10)
+  else none
+
+def parseHex? (s : String) : Option Nat :=
+  if s.isEmpty then none else
+  s.toList.foldlM (fun acc c => (hexDigit? c).map (acc * 16 + ·)) 0
+
+def hexChar (n : Nat) : Char := if n < 10 then Char.ofNat (n + 48) else Char.ofNat (n - 10 + 97)
+
+def toHex16 (n : Nat) : String :=
+  String.ofList ((List.range 16).reverse.map fun k => hexChar (n / 16^k % 16))
+end Driver
